@@ -29,8 +29,14 @@ PROP = Property(
                   "the runner opens the round for the recording epoch (current + 1) with the stake distribution stored under THAT epoch",
                   ["aggregator MithrilSignerRegistrationLeader::register_signer", "aggregator MithrilSignerRegistrationLeader::{open_registration_round, close_registration_round}",
                    "aggregator AggregatorRunner::open_signer_registration_round"]),
+        VerusUnit("aggregator_follower", "verus/C07/aggregator_follower.tmpl.rs",
+                  "extracted text of the follower aggregator's synchronization: synchronize_signers Ok ==> EVERY signer handed in was accepted by the registration verifier against the given stake distribution and exactly the verifier's "
+                  "answer was recorded and saved under the epoch (loop with inductive invariant); synchronize_all_signers Ok ==> that holds for every signer the leader announced, against the follower's OWN stake distribution stored for the "
+                  "synchronization epoch; a follower refuses every direct registration",
+                  ["aggregator MithrilSignerRegistrationFollower::synchronize_signers", "aggregator MithrilSignerRegistrationFollower::synchronize_all_signers", "aggregator MithrilSignerRegistrationFollower::register_signer"]),
     ],
     replays=[dict(crate="mithril-aggregator", file="mithril-aggregator/src/services/signer_registration/leader.rs", module="replays/c07_leader.rs"),
+             dict(crate="mithril-aggregator", file="mithril-aggregator/src/services/signer_registration/follower.rs", module="replays/c07_follower.rs"),
              dict(crate="mithril-aggregator", file="mithril-aggregator/src/runtime/runner.rs", module="replays/c07_runner.rs"),
              dict(crate="mithril-common", file=KC, module="replays/c07_registration.rs"),
              dict(crate="mithril-stm", file="mithril-stm/src/protocol/key_registration/register.rs", module="replays/c07_stm_registration.rs")],
